@@ -115,6 +115,56 @@ func zzC03_sametoken() {
 	symAssert(a.err == nil && len(a.body) == 1 && a.body[0] == tag, "the first request still gets its answer")
 }
 
+// the pool recycles: a first exchange whose response the application releases the moment Do returns (racing with
+// the receive path that delivered it, one preemption), then two concurrent requests answered in a decided order
+func zzC03_recycle() {
+	s := zzNewSession()
+	cc := zzNewConn(s, zzConnCfg{midSeed: 1000, nstart: 2, maxRetrans: 4, poolSize: 1024})
+	done0 := false
+	go func() {
+		req := pool.NewMessage(context.Background())
+		req.SetCode(codes.GET)
+		req.SetToken(message.Token{0xC1})
+		_ = req.SetPath("/a")
+		if resp, err := cc.Do(req); err == nil {
+			cc.ReleaseMessage(resp)
+		}
+		done0 = true
+	}()
+	zzWaitWritten(s, 1)
+	zzAnswer(cc, s.written[0], 1, 0, 1)
+	symWaitUntil(func() bool { return done0 })
+	symIdle()
+	symPreemptBudget(0)
+	a := &zzCall{token: message.Token{0xA1, 0xA2}}
+	b := &zzCall{token: message.Token{0xB1}}
+	go zzDo(cc, a)
+	zzWaitWritten(s, 2)
+	symIdle()
+	go zzDo(cc, b)
+	zzWaitWritten(s, 3)
+	symIdle()
+	first := symChoose("first", 2)
+	for k := 0; k < 2; k++ {
+		w := s.written[1+(first+k)%2]
+		tag := byte(0x5A)
+		if len(w.token) == 1 {
+			tag = 0x5B
+		}
+		zzAnswer(cc, w, tag, 0, 1)
+	}
+	symWaitUntil(func() bool { return a.done && b.done })
+	symCover("recycled-both-returned")
+	symAssert(a.err == nil && b.err == nil, "both requests were answered, so both calls succeed")
+	if a.err == nil {
+		symAssert(len(a.tok) == 2 && a.tok[0] == 0xA1 && len(a.body) == 1 && a.body[0] == 0x5A, "caller A gets the response carrying its token and the content produced for it")
+	}
+	if b.err == nil {
+		symAssert(len(b.tok) == 1 && b.tok[0] == 0xB1 && len(b.body) == 1 && b.body[0] == 0x5B, "caller B gets the response carrying its token and the content produced for it")
+	}
+	symAssert(a.resp != b.resp || a.resp == nil, "no response object is delivered to two callers")
+}
+
 func zzC03_selftest() {
 	s := zzNewSession()
 	cc := zzNewConn(s, zzConnCfg{midSeed: 1000, nstart: 2, maxRetrans: 4})
